@@ -334,6 +334,17 @@ def eval_num(e, env):
             return eval_num(e["l"], env) or eval_num(e["r"], env)
         a, b = eval_num(e["l"], env), eval_num(e["r"], env)
         return {"<": a < b, "<=": a <= b, ">": a > b, ">=": a >= b, "==": a == b, "!=": a != b}[op]
+    if k == "call" and is_path(e["f"]) and e["f"]["p"].split("::")[-1] in ("gcd", "lcm", "min", "max") and len(e["args"]) == 2:
+        import math
+        x, y = eval_num(e["args"][0], env), eval_num(e["args"][1], env)
+        fn_ = e["f"]["p"].split("::")[-1]
+        if fn_ == "gcd":
+            return float(math.gcd(int(x), int(y)))
+        if fn_ == "lcm":
+            return float(0 if int(x) == 0 or int(y) == 0 else abs(int(x) * int(y)) // math.gcd(int(x), int(y)))
+        return float(min(x, y) if fn_ == "min" else max(x, y))
+    if k == "paren":
+        return eval_num(e["e"], env)
     raise ir.AnchorMissing("cannot evaluate guard %s" % show(e))
 
 
